@@ -11,11 +11,12 @@ Record sstat := {
   ss_state : tstate; ss_health : health; ss_series : Z; ss_total : Z; ss_times : N;
   ss_window : list Z;      (* lastSeries: sizes of the last up to three successful scrapes *)
   ss_err : bool;           (* LastError <> "" *)
+  ss_last : option (Z * Z);   (* LastScrapeStatistics: samples (kept, all) of the last scrape, if it delivered a whole payload *)
 }.
 (* target.NewScrapeStatus *)
 Definition new_sstat (series total : Z) : sstat :=
   {| ss_state := Normal; ss_health := Unknown; ss_series := series; ss_total := total; ss_times := 0;
-     ss_window := []; ss_err := false |}.
+     ss_window := []; ss_err := false; ss_last := None |}.
 
 Definition assignment := list (N * list tgt).          (* job -> targets *)
 Record sidecar := {
@@ -37,7 +38,7 @@ Definition visit (old : amap sstat) (new : amap sstat) (t : tgt) : amap sstat :=
   let times := if tstate_eqb (ss_state base) Normal && tstate_eqb (t_state t) InTransfer then 0%N else ss_times base in
   aset (t_hash t)
        {| ss_state := t_state t; ss_health := ss_health base; ss_series := ss_series base; ss_total := ss_total base;
-          ss_times := times; ss_window := ss_window base; ss_err := ss_err base |} new.
+          ss_times := times; ss_window := ss_window base; ss_err := ss_err base; ss_last := ss_last base |} new.
 Definition update_status (old : amap sstat) (a : assignment) : amap sstat :=
   fold_left (visit old) (all_targets a) [].
 
@@ -82,10 +83,10 @@ Definition scrape_status (st : sstat) (r : scrape_result) (stopped : bool) : sst
     let w := push_window (ss_window st) scraped in
     {| ss_state := ss_state st; ss_health := if stopped then Bad else Good;
        ss_series := window_mean w; ss_total := total; ss_times := ss_times st + 1;
-       ss_window := w; ss_err := stopped |}
+       ss_window := w; ss_err := stopped; ss_last := Some (scraped, total) |}
   | ScrFail =>
     {| ss_state := ss_state st; ss_health := Bad; ss_series := ss_series st; ss_total := ss_total st;
-       ss_times := ss_times st + 1; ss_window := ss_window st; ss_err := true |}
+       ss_times := ss_times st + 1; ss_window := ss_window st; ss_err := true; ss_last := None |}
   end.
 
 Definition do_scrape (s : sidecar) (h : N) (r : scrape_result) (stopped : bool) : sidecar :=
